@@ -28,16 +28,17 @@ import (
 //	r4     answered 16 minutes ago and queried us just now (good by the BEP 5 rule)
 //	n4/n6  only ever queried us (never responded)
 //	b4     answered once, then failed a questionable-node ping (bad)
+//	u4     queried us just now, then sent an unsolicited response (unknown t): never answered us
 var c09Options = map[string][]string{
 	"-":    {},
 	"g":    {"g4"},
 	"gg6":  {"g4", "g6"},
-	"mix":  {"g4", "q4", "b4", "n4", "r4"},
+	"mix":  {"g4", "q4", "b4", "n4", "r4", "u4"},
 	"six":  {"g6", "n6", "g6"},
 	"g5":   {"g4", "g4", "g4", "g4", "g4"},
 	"g33":  {"g6", "g6", "g6", "g4", "g4", "g4"},
 	"g8":   {"g4", "g4", "g4", "g4", "g4", "g4", "g4", "g4"},
-	"old":  {"q4", "q4", "n4"},
+	"old":  {"q4", "q4", "n4", "u4"},
 	"g6x8": {"g6", "g6", "g6", "g6", "g6", "g6", "g6", "g6"},
 }
 var c09OptionOrder = []string{"-", "g", "gg6", "mix", "six", "g5", "g33", "g8", "old", "g6x8"}
@@ -88,6 +89,10 @@ func c09ParseTable(s string) (es []c09Entry, err error) {
 
 type c09Sys struct{ *Sys }
 
+// c09NeverAnswered: entries that, by the harness' own log, never answered one of the server's
+// queries (kinds n4, n6, u4), keyed like the snapshot ("addr|idhex"). One execution at a time.
+var c09NeverAnswered = map[string]bool{}
+
 func (y *c09Sys) ping(e c09Entry, answer bool) {
 	done := make(chan struct{})
 	go func() { y.S.Ping(e.addr); close(done) }()
@@ -119,6 +124,13 @@ func (y *c09Sys) failPing(e c09Entry) {
 }
 
 func (y *c09Sys) build(es []c09Entry) {
+	c09NeverAnswered = map[string]bool{}
+	for _, e := range es {
+		switch e.kind {
+		case "n4", "n6", "u4":
+			c09NeverAnswered[e.addr.String()+"|"+fmt.Sprintf("%x", e.id)] = true
+		}
+	}
 	// phase 1: everything that must be old
 	for _, e := range es {
 		switch e.kind {
@@ -136,6 +148,9 @@ func (y *c09Sys) build(es []c09Entry) {
 			y.queryFrom(e)
 		case "r4":
 			y.queryFrom(e)
+		case "u4":
+			y.queryFrom(e)
+			y.Deliver(e.addr, sim.Reply("zz9", sim.M{"id": sim.IDStr(e.id)}))
 		case "b4":
 			y.ping(e, true)
 			y.failPing(e)
@@ -220,7 +235,7 @@ func (y *tblSys) c09CheckList(snap tblSnap, key string, raw string, present bool
 		if (fam == 4) != is4 {
 			continue
 		}
-		if !y.refGood(snap.Now, n) || n.Id == sim.Root || n.Bucket > b0 {
+		if !y.refGood(snap.Now, n) || n.Id == sim.Root || n.Bucket > b0 || c09NeverAnswered[k] {
 			continue
 		}
 		if elig[n.Bucket] == nil {
@@ -247,7 +262,7 @@ func (y *tblSys) c09CheckList(snap tblSnap, key string, raw string, present bool
 		if (fam == 4) != (net.IP(n.IP).To4() != nil) {
 			return fmt.Sprintf("wrong-family: %s lists %s", key, k)
 		}
-		if n.LastGotResponse.IsZero() {
+		if n.LastGotResponse.IsZero() || c09NeverAnswered[k] {
 			return fmt.Sprintf("never-answered: %s lists %s which never answered one of our queries", key, k)
 		}
 		if !y.refGood(snap.Now, n) {
